@@ -179,6 +179,8 @@ def _gen_desc_once(rng):
     n_tr = rng.choice((1, 1, 1, 2, 2, 3))
     trs = gen_twprge_nums(rng, n_tr)
     style = rng.randrange(10) if rng.random() < 0.6 else 0
+    if rng.random() < 0.05:
+        style = 9
     nl = rng.choice(("\n", "\n", " ", ", "))
     out = []
     for tr in trs:
